@@ -10,19 +10,6 @@ set_option linter.unusedSimpArgs false
 namespace Gossamer.C08
 open Gossamer
 
-/-- operations of the proved fragment; `CK` = the strings used as child-trie keys -/
-def OpOK (CK : Bytes → Bool) : Op → Prop
-  | .put k _ => Logical.isChildKey k = false ∧ CK k = false
-  | .del k => Logical.isChildKey k = false ∧ CK k = false
-  | .get k => Logical.isChildKey k = false ∧ CK k = false
-  | .cput c _ _ => CK c = true
-  | .cdel c _ => CK c = true
-  | .cget c _ => CK c = true
-  | .start => True
-  | .commit => True
-  | .rollback => True
-  | _ => False
-
 structure BaseInv (CK : Bytes → Bool) (b : Logical) : Prop where
   wf : b.WF
   mainCK : ∀ k, CK k = true → OMap.get k b.main = none
@@ -32,20 +19,54 @@ structure DiffInv (CK : Bytes → Bool) (d : Diff) : Prop where
   sorted : d.SortedD
   upsCK : ∀ k, (CK k = true ∨ Logical.isChildKey k = true) → KMap.find k d.c.upserts = none
   upsDel : ∀ k, k ∈ d.c.deletes → KMap.find k d.c.upserts = none
-  delsCK : ∀ k, k ∈ d.c.deletes → CK k = false
+  delsNoChild : ∀ k, k ∈ d.c.deletes → Logical.isChildKey k = false
   kidsCK : ∀ ck, CK ck = false → KMap.find ck d.kids = none
   kidDisj : ∀ ck c, KMap.find ck d.kids = some c → ∀ k, k ∈ c.deletes → KMap.find k c.upserts = none
+  sk : d.c.sortedKeys = KMap.keys d.c.upserts
+  kidSk : ∀ ck c, KMap.find ck d.kids = some c → c.sortedKeys = KMap.keys c.upserts
 
 theorem DiffInv.empty (CK : Bytes → Bool) : DiffInv CK Diff.empty :=
   ⟨Diff.sorted_empty, fun _ _ => rfl, fun _ _ => rfl, fun _ h => by simp [Diff.empty, CDiff.empty] at h,
-    fun _ _ => rfl, fun _ _ h => by simp [Diff.empty, KMap.find] at h⟩
+    fun _ _ => rfl, fun _ _ h => by simp [Diff.empty, KMap.find] at h, rfl,
+    fun _ _ h => by simp [Diff.empty, KMap.find] at h⟩
+
+theorem keys_ins (k v : Bytes) (m : KMap Bytes) : KMap.keys (KMap.ins k v m) = KSet.ins k (KMap.keys m) := by
+  induction m with
+  | nil => rfl
+  | cons e r ih =>
+    simp only [KMap.ins, KMap.keys, List.map_cons, KSet.ins]
+    split
+    · rename_i he; simp [he]
+    · split
+      · rfl
+      · simp only [List.map_cons, KMap.keys] at ih ⊢
+        rw [ih]
+
+theorem keys_del (k : Bytes) (m : KMap Bytes) : KMap.keys (KMap.del k m) = KSet.del k (KMap.keys m) := by
+  induction m with
+  | nil => rfl
+  | cons e r ih =>
+    simp only [KMap.del, KMap.keys, KSet.del, List.filter_cons, List.map_cons] at ih ⊢
+    split <;> simp [ih]
+
+theorem CDiff.sk_upsert {c : CDiff} (h : c.sortedKeys = KMap.keys c.upserts) (k v : Bytes) :
+    (c.upsert k v).sortedKeys = KMap.keys (c.upsert k v).upserts := by
+  simp only [CDiff.upsert, keys_ins, h]
+
+theorem CDiff.sk_delete {c : CDiff} (h : c.sortedKeys = KMap.keys c.upserts) (k : Bytes) :
+    (c.delete k).sortedKeys = KMap.keys (c.delete k).upserts := by
+  simp only [CDiff.delete, keys_del, h]
 
 section lemmas
 variable {CK : Bytes → Bool} {b : Logical} {d : Diff}
 
 theorem hdel_of_inv (hb : BaseInv CK b) (hd : DiffInv CK d) :
-    ∀ k ∈ d.c.deletes, KMap.find k d.kids = none ∧ kidOf b k = [] :=
-  fun k hk => ⟨hd.kidsCK k (hd.delsCK k hk), hb.kidsCK k (hd.delsCK k hk)⟩
+    ∀ k ∈ d.c.deletes, (KMap.find k d.kids = none ∧ kidOf b k = []) ∨
+      (KMap.find k d.c.upserts = none ∧ OMap.get k b.main = none) := by
+  intro k _
+  cases hck : CK k with
+  | false => exact Or.inl ⟨hd.kidsCK k hck, hb.kidsCK k hck⟩
+  | true => exact Or.inr ⟨hd.upsCK k (Or.inl hck), hb.mainCK k hck⟩
 
 /-- main map of a level under the invariants -/
 theorem eff_main (hb : BaseInv CK b) (hd : DiffInv CK d) (k : Bytes) :
@@ -55,17 +76,19 @@ theorem eff_main (hb : BaseInv CK b) (hd : DiffInv CK d) (k : Bytes) :
   by_cases hc : Logical.isChildKey k = true
   · have h1 := hd.upsCK k (Or.inr hc)
     have h2 := hb.wf.noChild k hc
-    simp [hc, h1, h2]
+    have h3 : k ∉ d.c.deletes := fun h => by have := hd.delsNoChild k h; rw [hc] at this; cases this
+    simp [hc, h1, h2, h3]
   · have hc' : Logical.isChildKey k = false := by simpa using hc
     simp [hc']
 
 theorem eff_kid (hb : BaseInv CK b) (hd : DiffInv CK d) (ck k : Bytes) :
     OMap.get k (kidOf (effL b d) ck) =
-      match KMap.find ck d.kids with
-      | some c => if k ∈ c.deletes then none
-                  else ov (KMap.find k c.upserts) (OMap.get k (kidOf b ck))
-      | none => OMap.get k (kidOf b ck) :=
-  effL_kid hb.wf hd.sorted.wf (hdel_of_inv hb hd) ck k
+      if ck ∈ d.c.deletes then none
+      else match KMap.find ck d.kids with
+        | some c => if k ∈ c.deletes then none
+                    else ov (KMap.find k c.upserts) (OMap.get k (kidOf b ck))
+        | none => OMap.get k (kidOf b ck) :=
+  effL_kid hb.wf hd.sorted.wf ck k
 
 /-- the logical content of a level satisfies the base invariant (needed at the outermost commit) -/
 theorem eff_baseInv (hb : BaseInv CK b) (hd : DiffInv CK d) : BaseInv CK (effL b d) := by
@@ -79,12 +102,14 @@ theorem eff_baseInv (hb : BaseInv CK b) (hd : DiffInv CK d) : BaseInv CK (effL b
     apply OMap.sorted_ext hs hnil
     intro k
     rw [eff_kid hb hd, hd.kidsCK ck hck, hb.kidsCK ck hck]
+    simp [OMap.get]
 
 /-! #### writes inside a transaction -/
 
 theorem inv_upsert (hd : DiffInv CK d) (k v : Bytes)
     (hk : Logical.isChildKey k = false ∧ CK k = false) : DiffInv CK (d.upsert k v) := by
-  refine ⟨Diff.sorted_upsert hd.sorted k v, ?_, ?_, ?_, hd.kidsCK, hd.kidDisj⟩
+  refine ⟨Diff.sorted_upsert hd.sorted k v, ?_, ?_, ?_, hd.kidsCK, hd.kidDisj,
+    CDiff.sk_upsert hd.sk k v, hd.kidSk⟩
   · intro k' h'
     simp only [Diff.upsert, CDiff.upsert, KMap.find_ins]
     have : k' ≠ k := by
@@ -100,7 +125,7 @@ theorem inv_upsert (hd : DiffInv CK d) (k v : Bytes)
   · intro k' h'
     simp only [Diff.upsert, CDiff.upsert] at h'
     rw [KSet.mem_del] at h'
-    exact hd.delsCK k' h'.2
+    exact hd.delsNoChild k' h'.2
 
 theorem eff_upsert (hb : BaseInv CK b) (hd : DiffInv CK d) (k v : Bytes)
     (hk : Logical.isChildKey k = false ∧ CK k = false) :
@@ -122,11 +147,15 @@ theorem eff_upsert (hb : BaseInv CK b) (hd : DiffInv CK d) (k v : Bytes)
   · intro ck k'
     have e : kidOf { effL b d with main := OMap.upsert k v (effL b d).main } ck = kidOf (effL b d) ck := rfl
     rw [e, eff_kid hb hd', eff_kid hb hd]
-    rfl
+    simp only [Diff.upsert, CDiff.upsert, KSet.mem_del]
+    by_cases h : ck = k
+    · subst h
+      simp [hd.kidsCK ck hk.2, hb.kidsCK ck hk.2, OMap.get]
+    · simp [h]
 
 theorem inv_delete (hd : DiffInv CK d) (k : Bytes)
     (hk : Logical.isChildKey k = false ∧ CK k = false) : DiffInv CK (d.delete k) := by
-  refine ⟨Diff.sorted_delete hd.sorted k, ?_, ?_, ?_, ?_, ?_⟩
+  refine ⟨Diff.sorted_delete hd.sorted k, ?_, ?_, ?_, ?_, ?_, CDiff.sk_delete hd.sk k, ?_⟩
   · intro k' h'
     simp only [Diff.delete, CDiff.delete, KMap.find_del]
     simp [hd.upsCK k' h']
@@ -141,8 +170,8 @@ theorem inv_delete (hd : DiffInv CK d) (k : Bytes)
     simp only [Diff.delete, CDiff.delete] at h'
     rw [KSet.mem_ins] at h'
     rcases h' with h' | h'
-    · rw [h']; exact hk.2
-    · exact hd.delsCK k' h'
+    · rw [h']; exact hk.1
+    · exact hd.delsNoChild k' h'
   · intro ck hck
     simp only [Diff.delete, KMap.find_del]
     simp [hd.kidsCK ck hck]
@@ -152,6 +181,12 @@ theorem inv_delete (hd : DiffInv CK d) (k : Bytes)
     · simp [h] at hf
     · simp only [h, if_false] at hf
       exact hd.kidDisj ck c hf
+  · intro ck c hf
+    simp only [Diff.delete, KMap.find_del] at hf
+    by_cases h : ck = k
+    · simp [h] at hf
+    · simp only [h, if_false] at hf
+      exact hd.kidSk ck c hf
 
 theorem eff_delete (hb : BaseInv CK b) (hd : DiffInv CK d) (k : Bytes)
     (hk : Logical.isChildKey k = false ∧ CK k = false) :
@@ -172,10 +207,10 @@ theorem eff_delete (hb : BaseInv CK b) (hd : DiffInv CK d) (k : Bytes)
   · intro ck k'
     have e : kidOf { effL b d with main := OMap.erase k (effL b d).main } ck = kidOf (effL b d) ck := rfl
     rw [e, eff_kid hb hd', eff_kid hb hd]
-    simp only [Diff.delete, KMap.find_del]
+    simp only [Diff.delete, CDiff.delete, KMap.find_del, KSet.mem_ins]
     by_cases h : ck = k
     · subst h
-      simp [hd.kidsCK ck hk.2]
+      simp [hd.kidsCK ck hk.2, hb.kidsCK ck hk.2, OMap.get]
     · simp [h]
 
 end lemmas
